@@ -138,12 +138,16 @@ func (v *Verifier) callCommon(s *State, c *ssa.CallCommon, fv *Value, args []*Va
 	}
 	if fc := v.contracts.forFunc(callee); fc != nil && fc.hasCallContract() && callee != v.top {
 		v.byContract[funcRef(callee)] = true
+		v.curCallee = callee
+		defer func() { v.curCallee = nil }()
 		return v.applyContract(s, fc, callee.Signature, fullArgs, pos, resultType(c), funcRef(callee))
 	}
 	if fc := v.contracts.forFunc(callee); fc != nil && callee == v.top && fc.hasCallContract() {
 		// recursive call of the function under verification: use its contract + decreases
 		v.byContract[funcRef(callee)+" (recursive)"] = true
 		v.recursionMeasure(s, fc, callee, fullArgs, pos)
+		v.curCallee = callee
+		defer func() { v.curCallee = nil }()
 		return v.applyContract(s, fc, callee.Signature, fullArgs, pos, resultType(c), funcRef(callee))
 	}
 	if callee.Blocks != nil && v.canInline(s, callee) {
@@ -309,11 +313,7 @@ func (v *Verifier) havocCall(s *State, callee *ssa.Function, c *ssa.CallCommon, 
 	name := funcRef(callee)
 	v.trusted[name] = true
 	if isModulePkg(fnPkg(callee)) && callee.Blocks != nil {
-		s.bumpWM()
-		ms := v.modset(callee)
-		for _, k := range sortedKeys(ms) {
-			s.freshHeap("Hc!", k, ms[k])
-		}
+		v.havocBySummary(s, callee, "Hc!", true)
 	} else {
 		v.havocPointees(s, args)
 	}
@@ -326,16 +326,11 @@ func (v *Verifier) havocPointees(s *State, args []*Value) { v.havocPointeesPolic
 // havocPointeesPolicy: with dynamic==true (callbacks / interface methods / func values) module structs reachable from
 // pointer arguments are assumed unmodified (listed assumption); buffers and non-struct pointees are still havoc'd.
 func (v *Verifier) havocPointeesPolicy(s *State, args []*Value, dynamic bool) {
+	v.havocVolatile(s)
 	// a callee that receives a closure may call it any number of times: everything the closure can write is havoc'd
 	for _, a := range args {
 		if a != nil && a.Clo != nil && a.Clo.Fn != nil && a.Clo.Fn.Blocks != nil {
-			ms := v.modset(a.Clo.Fn)
-			if len(ms) > 0 {
-				s.bumpWM()
-			}
-			for _, k := range sortedKeys(ms) {
-				s.freshHeap("Hcb!", k, ms[k])
-			}
+			v.havocBySummary(s, a.Clo.Fn, "Hcb!", true)
 		}
 	}
 	for _, a := range args {
@@ -367,12 +362,31 @@ func (v *Verifier) havocPointeesPolicy(s *State, args []*Value, dynamic bool) {
 				_, inner, _ := arrayParts(hk.sort)
 				s.heap[hk.name] = Store(h, a.sArr(), Fresh("ext!elems", inner))
 			}
+		case *types.Map:
+			// the callee may insert, overwrite and delete entries of a map it is given
+			if a.L[0] != nil {
+				ms := map[string]Sort{}
+				addMapKeys(ms, a.T)
+				s.bumpWM()
+				for _, k := range sortedKeys(ms) {
+					h := s.heapArr(k, ms[k])
+					_, inner, _ := arrayParts(ms[k])
+					s.heap[k] = Store(h, a.term(), Fresh("ext!map", inner))
+				}
+				v.assumeMapValuesAllocated(s, a)
+			}
 		case *types.Interface:
 			// dynamic pointer inside an interface: havoc if it is a known pointer type to a module struct
 			if a.L[0].isInt() {
 				if ct, ok := typeIDTypes[a.L[0].ival.Int64()]; ok {
 					if p, ok := under(ct).(*types.Pointer); ok && isStruct(p.Elem()) && isModuleType(p.Elem()) && !dynamic {
-						s.storeStruct(a.L[1], p.Elem(), freshValue("ext!"+typeName(p.Elem()), p.Elem()))
+						// a foreign callee can touch a module object only through the methods of the interface it was given
+						for i := 0; i < u.NumMethods(); i++ {
+							m := u.Method(i)
+							if fn := v.prog.LookupMethod(ct, m.Pkg(), m.Name()); fn != nil && fn.Blocks != nil {
+								v.havocBySummary(s, fn, "Hext!", true)
+							}
+						}
 					}
 				}
 			}
@@ -451,9 +465,22 @@ func (v *Verifier) applyContractNamed(s *State, fc *FuncContract, sig *types.Sig
 			}
 		}
 	}
-	if !explicit && !fc.Pure {
+	if callee := v.curCallee; !fc.Pure && !(callee != nil && callee.Blocks != nil && isModulePkg(fnPkg(callee))) {
+		// contract on foreign code or on an interface method: volatile fields may change underneath
+		v.havocVolatile(s)
+	}
+	if callee := v.curCallee; explicit && callee != nil && callee.Blocks != nil && isModulePkg(fnPkg(callee)) {
+		// objects the callee allocates are not covered by its modifies clause: what they hold is unknown (in particular
+		// they may refer to other objects allocated during the call)
+		v.havocFreshRegion(s, callee, pre.wm)
+	}
+	if callee := v.curCallee; !explicit && !fc.Pure && callee != nil && callee.Blocks != nil && isModulePkg(fnPkg(callee)) {
+		// no modifies clause on a function whose body is known: everything its body (transitively) can write is unknown
+		v.havocBySummary(s, callee, "Hc!", true)
+	} else if !explicit && !fc.Pure {
 		v.assumptions["callee "+name+" has no modifies clause: assumed to modify nothing visible"] = true
 	}
+	v.curCallee = nil
 	var res *Value
 	if rt != nil {
 		res = freshValue("ret!"+name, rt)
@@ -658,11 +685,12 @@ func (v *Verifier) doAppend(s *State, dst, src *Value, pos token.Pos) *Value {
 		fromDst := Select(oldDst, Add(dst.sOff(), rel))
 		fromSrc := Select(srcArr, Add(srcOff, Sub(rel, dst.sLen())))
 		body := Implies(And(Le(base, j), Lt(j, Add(base, newLen))), Eq(elemAt, Ite(Lt(rel, dst.sLen()), fromDst, fromSrc)))
-		s.assume(Forall([]*Term{j}, body, []*Term{elemAt}))
+		// definitions of the fresh array `na`: stated globally, not under the path condition
+		addFact(na, Forall([]*Term{j}, body, []*Term{elemAt}))
 		// frame for in-place: indices outside the appended window keep old contents
 		i2 := BoundVar("i!app", SInt)
 		outside := Or(Lt(i2, Add(dst.sOff(), dst.sLen())), Ge(i2, Add(dst.sOff(), newLen)))
-		s.assume(Implies(fits, Forall([]*Term{i2}, Implies(outside, Eq(Select(na, i2), Select(oldDst, i2))), []*Term{Select(na, i2)})))
+		addFact(na, Forall([]*Term{i2}, Implies(And(fits, outside), Eq(Select(na, i2), Select(oldDst, i2))), []*Term{Select(na, i2)}))
 		s.heap[hk.name] = Store(h, rArr, na)
 	}
 	return res
@@ -695,7 +723,7 @@ func (v *Verifier) doCopy(s *State, dst, src *Value) *Value {
 		i := BoundVar("i!cpy", SInt)
 		inWin := And(Le(dst.sOff(), i), Lt(i, Add(dst.sOff(), n)))
 		val := Ite(inWin, Select(srcArr, Add(srcOff, Sub(i, dst.sOff()))), Select(oldDst, i))
-		s.assume(Forall([]*Term{i}, Eq(Select(na, i), val), []*Term{Select(na, i)}))
+		addFact(na, Forall([]*Term{i}, Eq(Select(na, i), val), []*Term{Select(na, i)}))
 		s.heap[hk.name] = Store(h, dst.sArr(), na)
 	}
 	return scalar(types.Typ[types.Int], n)
@@ -778,7 +806,7 @@ func (v *Verifier) mapGet(s *State, m *Value, k *Value) *Value {
 	specs := leafSpecs(vt)
 	val := &Value{T: vt, L: make([]*Term, len(specs))}
 	for i, sp := range specs {
-		h := s.heapArr(mapBase(m.T)+"#val"+sp.Suffix, ArrSort(SInt, nestSort(ks, sp.Sort)))
+		h := s.heapArr(mapValHeap(m.T, sp, ks), ArrSort(SInt, nestSort(ks, sp.Sort)))
 		val.L[i] = selectN(Select(h, m.term()), v.mapKeyTerms(k))
 	}
 	valueFacts(val)
@@ -856,7 +884,7 @@ func (v *Verifier) mapStore(s *State, m, k, val *Value) {
 	ln := s.heapArr(lnName, ArrSort(SInt, SInt))
 	s.heap[lnName] = Store(ln, m.term(), Ite(was, Select(ln, m.term()), Add(Select(ln, m.term()), Int(1))))
 	for i, sp := range leafSpecs(mt.Elem()) {
-		n := mapBase(m.T) + "#val" + sp.Suffix
+		n := mapValHeap(m.T, sp, ks)
 		hv := s.heapArr(n, ArrSort(SInt, nestSort(ks, sp.Sort)))
 		l := val.L[i]
 		if l == nil {
@@ -1106,13 +1134,22 @@ func addStructKeys(m map[string]Sort, st types.Type) {
 	}
 }
 
+// mapValHeap names the heap of one leaf of a map's values; reference leaves are registered for allocation bounds.
+func mapValHeap(t types.Type, sp LeafSpec, ks []Sort) string {
+	n := mapBase(t) + "#val" + sp.Suffix
+	if isRefLeaf(sp) {
+		refHeaps[n] = 1 + len(ks)
+	}
+	return n
+}
+
 func addMapKeys(m map[string]Sort, t types.Type) {
 	mt := under(t).(*types.Map)
 	ks := mapKeySorts(mt)
 	m[mapBase(t)+"#has"] = ArrSort(SInt, nestSort(ks, SBool))
 	m[mapBase(t)+"#len"] = ArrSort(SInt, SInt)
 	for _, sp := range leafSpecs(mt.Elem()) {
-		m[mapBase(t)+"#val"+sp.Suffix] = ArrSort(SInt, nestSort(ks, sp.Sort))
+		m[mapValHeap(t, sp, ks)] = ArrSort(SInt, nestSort(ks, sp.Sort))
 	}
 }
 
@@ -1215,6 +1252,8 @@ func (v *Verifier) modArgPolicy(t types.Type, heap map[string]Sort, dynamic bool
 		}
 	case *types.Slice:
 		addKeys(heap, elemBase(u.Elem()), u.Elem(), SInt, SInt)
+	case *types.Map:
+		addMapKeys(heap, t)
 	}
 }
 
